@@ -304,6 +304,28 @@ ADDED7 = {
 for _pid, _t in ADDED7.items():
     CLAIMED[_pid]["text"] += " Round 7: " + _t
 
+# rules added in round 8 (2026-10-04 night)
+ADDED8 = {
+ "C02": "(Q14) the folder-side reports of C04's evaluator comparison are repeated under C02 (constant folding is an optimisation setting).",
+ "C03": "(T15) the three level walks of the interpreter (Lex read, Env, Lex reference) reach link number `lev`: case k follows k links, a default starting from m links counts from m.",
+ "C04": "(B10) the hand-written rewrites of peepBCall are a frozen, justified set; a new one is refused until confirmed. The immediate-parity idiom (bintSmall(x) % 2 == 0 / != 0) is part of the tree vocabulary; `== 1` is reported.",
+ "C05": "(W15) = C19-L7.",
+ "C06": "(S12) the arity verdict after the parameter loop of tfSatAsMulti depends on a quantity the loop counts.",
+ "C07": "(K17) the scanner's cursor variables are written only by expansions of scAdvance0 and by the line-start routines (112 writes).",
+ "C08": "(D7) no function-static is set once from a value that depends on the function's arguments (one frozen, invocation-wide); (D8) no set-once flag in the per-file generators (three command-line latches frozen).",
+ "C09": "(G9) stores into the per-kind tables are indexed by an unreduced kind; (G10) the run-time layout of raw records aligns every field offset before storing it.",
+ "C10": "(T-quantum) every size handed to mxmemSplit is a multiple of the quantum by construction (ROUND_UP in the function or in every caller).",
+ "C11": "(N7) the negative branch of bintLT/bintGT is the positive one with the operand comparisons exchanged, and bintGT is bintLT with the branches exchanged; a restructured comparison is refused.",
+ "C13": "(U7) between the type-inference phases of two steps the file level's isChecked flag is cleared on every path (driver loop, or compFileFront before the phase, or after it on every exit).",
+ "C15": "(P9) every increment of the file's line counter in include.c is matched by one of the serial line number; (P10) osFnameDirEqual skips a leading dot only when it is a whole path component.",
+ "C16": "(M9) every `#line` written by the C printer follows a newline written by the same call or on every path before it.",
+ "C17": "(R7) in lib.c the branch taken after a short read or a rejected header ends in a non-returning call or a return.",
+ "C18": "(O7) no call receives two results of the same static-storage function (rules/staticbuf.py, functions found by their static locals, wrappers by fixpoint); (O8) a failed osFileRename reaches the file-error handler.",
+ "C19": "(L7) every %g/%e conversion of the artefact writers prints 17 digits for a double-typed and 9 for a single-typed value.",
+}
+for _pid, _t in ADDED8.items():
+    CLAIMED[_pid]["text"] += " Round 8: " + _t
+
 def main():
     checks = []
     for pid in sorted(CLAIMED):
